@@ -206,6 +206,25 @@ def run_model(case):
                 e2 = np.abs(np.broadcast_to(A2, np.broadcast_shapes(A2.shape, A.shape)) - A).max() / max(np.abs(A[np.isfinite(A)]).max() if np.isfinite(A).any() else 1.0, c.floor)
                 if not (e1 < 1e-12 and e2 < 1e-12):
                     c.bad(f"{slab}/{rep}", "stress / elasticity differ when the same states are given in another memory layout, or on a second evaluation with the same arrays", dict(stress=float(e1), tangent=float(e2)), 0, 1e-12)
+        # in-place histories on ONE input array (a SolidBody extracts the kinematics into one re-used array): evaluate at the
+        # states, overwrite the same array with the reversed batch, evaluate the other quantity -- nothing may be remembered
+        if e["backend"] == "hand" or case["tier"] == "thorough" or n <= 60:
+            for first, second in (("gradient", "hessian"), ("hessian", "gradient"), ("gradient", "gradient")):
+                um2 = e["make"]()
+                Fw = np.ascontiguousarray(F.copy())
+                svw = None if sv is None else np.ascontiguousarray(sv.copy())
+                getattr(um2, first)([Fw, svw])
+                Fw[...] = F[:, :, ::-1]
+                if svw is not None and svw.size:
+                    svw[...] = sv[:, ::-1]
+                r2 = np.asarray(getattr(um2, second)([Fw, svw])[0], dtype=float)
+                want = (np.broadcast_to(A, np.broadcast_shapes(A.shape, r2.shape)) if second == "hessian" else P)
+                want = want[..., ::-1, :] if want.shape[-2] == n else want
+                c.trans += 2
+                c.traces += 1
+                err = np.abs(r2 - want).max() / max(np.abs(want[np.isfinite(want)]).max() if np.isfinite(want).any() else 1.0, c.floor)
+                if not err < 1e-12:
+                    c.bad(f"{slab}/inplace-history/{first}>{second}", f"{second}() after {first}() and an in-place update of the same input array differs from the evaluation at the new states", float(err), 0, 1e-12)
         Afd = fd_dirs(P_of, F)
         compare_tangent(c, f"{slab}/dPdF", A, Afd, labels, "elasticity tensor vs FD of the stress (all 9 directions)")
         if e["energy"] is not None and slab == "virgin":
